@@ -22,7 +22,10 @@ RULE = ("objects of every kind (network, grid, graph, system, script, trajectory
         "spec (1-4 species, 0-4 reactions with orders 0-4 per side, empty sides, repeated species, labelled/unlabelled, "
         "scalar or per-environment D/density/chstt/k with and without 'default'; grids 1-3^3 with all boundary "
         "combinations; graphs with own node/edge units; explicit/default state and chemostats; all policies/modes) with "
-        "an independent units system at every level, values spanning 1e-30 … 1e+23 incl. numbers below 1e-12 (ordinary sizes carried in "
+        "an independent units system at every level; on 35 % of the objects 1-3 REFUSED EDITS are made before the round trip (space "
+        "naming an environment beyond the network's list, unknown sampling_policy / init_state_processing, invalid unit component, "
+        "wrong-dimension quantity or array item, wrong sizes / types: each must raise, the object must then read exactly as built "
+        "and every round-trip mode is judged against the original description); values spanning 1e-30 … 1e+23 incl. numbers below 1e-12 (ordinary sizes carried in "
         "m / km / mol / h) and 15-17 significant digits in every quantity-valued field (compared exactly: repr round trip), explicit zero stoichiometric coefficients (first / middle / last); streams and "
         "the clause each tests: [round trip: dict / JSON text / save+load, absolute and relative paths] modes direct, json, file-abs, "
         "file-rel, file-inline; [serialising again gives the same dictionary] reserialise; [aliases interchangeable] alias + "
@@ -801,6 +804,148 @@ def guarded(f):
         return None, "%s: %s" % (type(ex).__name__, str(ex)[:200])
 
 
+# =============================================================================================
+# refused edits: calls that MUST raise, made on the object before the round trip; the object must stay as described
+# =============================================================================================
+class NotApplicable(Exception):
+    pass
+
+
+def _bad_space(system):
+    """a space of the same type naming an environment index beyond the network's list"""
+    m = S()
+    nenv = system.network.nenvironments()
+    sp = system.space
+    if type(sp) == m["rg"].RDGridSpace:
+        return m["rg"].RDGridSpace(w=sp.w, h=sp.h, d=sp.d, cell_env=nenv, cell_vol=7, units_system=sp.units_system)
+    nodes = [m["rgr"].RDGraphSpaceNode(volume=7, environment=nenv) for _ in range(max(1, sp.size()))]
+    return m["rgr"].RDGraphSpace(nodes=nodes, edges=[])
+
+
+def _first(seq):
+    if not len(seq):
+        raise NotApplicable()
+    return seq[0]
+
+
+def _uv(v, u):
+    return S()["u"].UnitValue(v, u)
+
+
+NETWORK_EDITS = {
+    "network.units.time": lambda n: setattr(n.units_system, "time", "sec"),
+    "network.units.dict": lambda n: setattr(n, "units_system", {"space": "parsec"}),
+    "network.environments.empty": lambda n: setattr(n, "environments", []),
+    "network.environments.default": lambda n: setattr(n, "environments", ["default"]),
+    "network.species.type": lambda n: setattr(n, "species", [1]),
+    "species.D.dimension": lambda n: setattr(_first(n.species), "D", "1 s"),
+    "species.density.dimension": lambda n: setattr(_first(n.species), "density", {"default": "2 m2"}),
+    "species.chstt.type": lambda n: setattr(_first(n.species), "chstt", "yes"),
+    "species.units.space": lambda n: setattr(_first(n.species).units_system, "space", "parsec"),
+    "reaction.kf.dimension": lambda n: setattr(_first(n.reactions), "kf", "1 m7"),
+    "reaction.units.quantity": lambda n: n.reactions[0].units_system.__setitem__("quantity", "dozen") if len(n.reactions) else (_ for _ in ()).throw(NotApplicable()),
+}
+
+
+def _grid(sp):
+    if type(sp).__name__ != "RDGridSpace":
+        raise NotApplicable()
+    return sp
+
+
+def _graph(sp):
+    if type(sp).__name__ != "RDGraphSpace":
+        raise NotApplicable()
+    return sp
+
+
+SPACE_EDITS = {
+    "space.units.time": lambda sp: setattr(sp.units_system, "time", "sec"),
+    "grid.cell_env.size": lambda sp: setattr(_grid(sp), "cell_env", [0] * (sp.size() + 1)),
+    "grid.cell_vol.dimension": lambda sp: setattr(_grid(sp), "cell_vol", "1 m2"),
+    "grid.boundary.value": lambda sp: _grid(sp).set_boundary_conditions({"x": "periodical", "y": "open"}),
+    "grid.boundary.axis": lambda sp: _grid(sp).set_boundary_conditions({"z": "periodical", "t": "reflecting"}),
+    "node.volume.dimension": lambda sp: setattr(_first(_graph(sp).nodes), "volume", "1 s"),
+    "node.units.space": lambda sp: setattr(_first(_graph(sp).nodes).units_system, "space", "parsec"),
+    "edge.distance.dimension": lambda sp: setattr(_first(_graph(sp).edges), "distance", "1 m2"),
+}
+
+SYSTEM_EDITS = {
+    "system.space.environment-index": lambda sy: setattr(sy, "space", _bad_space(sy)),
+    "system.space.type": lambda sy: setattr(sy, "space", 3),
+    "system.network.type": lambda sy: setattr(sy, "network", "net"),
+    "system.state.dimension": lambda sy: setattr(sy, "state", S()["u"].UnitArray([1.0] * len(sy.state), "s")),
+    "system.state.item-dimension": lambda sy: sy.state.set_value([_uv(1.0, "s")] + [2.0] * (len(sy.state) - 1)) if len(sy.state) else (_ for _ in ()).throw(NotApplicable()),
+    "system.state.type": lambda sy: setattr(sy, "state", "full"),
+    "system.chemostats.type": lambda sy: setattr(sy, "chemostats", 3),
+    "system.units.time": lambda sy: setattr(sy.units_system, "time", "sec"),
+}
+
+SCRIPT_EDITS = {
+    "script.sampling_policy": lambda sc: setattr(sc, "sampling_policy", "sometimes"),
+    "script.init_state_processing": lambda sc: setattr(sc, "init_state_processing", "sampled"),
+    "script.units.type": lambda sc: setattr(sc, "units_system", 3),
+    "script.units.time": lambda sc: setattr(sc.units_system, "time", "sec"),
+    "script.t_sample.dimension": lambda sc: setattr(sc, "t_sample", S()["u"].UnitArray([1.0], "m")),
+    "script.time_step.dimension": lambda sc: setattr(sc, "time_step", "1 m"),
+    "script.sampling_interval.dimension": lambda sc: setattr(sc, "sampling_interval", "1 mol"),
+    "script.system.type": lambda sc: setattr(sc, "system", None),
+}
+
+TRAJ_EDITS = {
+    "trajectory.data.item-dimension": lambda t: t.data.set_value([_uv(1.0, "s")] + [0.0] * (len(t.data) - 1)) if len(t.data) else (_ for _ in ()).throw(NotApplicable()),
+    "trajectory.t.item-dimension": lambda t: t.t.set_value([_uv(1.0, "m")] + [0.0] * (len(t.t) - 1)) if len(t.t) else (_ for _ in ()).throw(NotApplicable()),
+}
+
+
+def refused_edits_of(kind):
+    if kind == "network":
+        return dict(NETWORK_EDITS)
+    if kind in ("grid", "graph"):
+        return dict(SPACE_EDITS)
+    out = {}
+    if kind == "system":
+        out.update(SYSTEM_EDITS)
+        out.update({k: (lambda sy, f=f: f(sy.network)) for k, f in NETWORK_EDITS.items()})
+        out.update({k: (lambda sy, f=f: f(sy.space)) for k, f in SPACE_EDITS.items()})
+    elif kind == "script":
+        out.update(SCRIPT_EDITS)
+        out.update({k: (lambda sc, f=f: f(sc.system)) for k, f in refused_edits_of("system").items()})
+    elif kind == "trajectory":
+        out.update(TRAJ_EDITS)
+        out.update({k: (lambda t, f=f: f(t.system)) for k, f in refused_edits_of("system").items()})
+        out.update({"script:" + k: (lambda t, f=f: f(t.script) if t.script is not None else (_ for _ in ()).throw(NotApplicable()))
+                    for k, f in SCRIPT_EDITS.items()})
+    return out
+
+
+def pick_refused(kind, rng):
+    names = sorted(refused_edits_of(kind))
+    # the edits that matter most for this kind come up more often
+    hot = [n for n in names if n in ("system.space.environment-index", "script.sampling_policy", "script.init_state_processing",
+                                     "system.state.item-dimension", "network.units.time", "space.units.time")]
+    return [rng.choice(hot) if (hot and rng.random() < 0.5) else rng.choice(names) for _ in range(rng.randint(1, 3))]
+
+
+def apply_refused(kind, x, names):
+    """-> list of (name, outcome) with outcome in raised | accepted | n/a"""
+    table = refused_edits_of(kind)
+    out = []
+    for nm in names:
+        f = table.get(nm)
+        if f is None:
+            out.append((nm, "n/a"))
+            continue
+        try:
+            f(x)
+            out.append((nm, "accepted"))
+        except NotApplicable:
+            out.append((nm, "n/a"))
+        except Exception as ex:  # noqa
+            out.append((nm, "raised"))
+    return out
+
+
 def check_object(ctx, kind, spec, modes, aliases, rng):
     """build the original through the constructors and run the requested modes; reports violations"""
     x, err = guarded(lambda: BUILD[kind](spec))
@@ -808,6 +953,21 @@ def check_object(ctx, kind, spec, modes, aliases, rng):
         ctx.count("generator_rejected")
         return None
     ref = VIEW[kind](x)
+    refused = spec.get("refused") or []
+    if refused:
+        outcomes = apply_refused(kind, x, refused)
+        for nm, oc in outcomes:
+            ctx.count("refused_edit_" + oc)
+        acc = [nm for nm, oc in outcomes if oc == "accepted"]
+        case0 = {"kind": kind, "mode": "refused-edit", "spec": spec}
+        if acc:
+            ctx.violation("refused-edit:%s:accepted" % acc[0], "the invalid edit %r of a %s did not raise" % (acc[0], kind), case0, impl="accepted",
+                          expected="exception")
+        df = diff(ref, VIEW[kind](x))
+        if df:
+            ctx.violation("refused-edit:%s:%s" % (kind, field_of(df[0])),
+                          "after the refused edit(s) %s (each raised) the %s is no longer the one that was built: %s changed"
+                          % ([nm for nm, oc in outcomes if oc == "raised"], kind, df[0]), case0, impl=df[2], expected=df[1])
     nsys = len({tuple(u) for u in _all_sys(spec)})
     for mode in modes:
         case = {"kind": kind, "mode": mode, "spec": spec}
@@ -1366,6 +1526,8 @@ def run(ctx):
                 ctx.notes.append("time budget reached in %s after %d objects" % (kind, i))
                 break
             spec = GEN[kind](rng)
+            if rng.random() < 0.35:
+                spec["refused"] = pick_refused(kind, rng)
             check_object(ctx, kind, spec, MODES[kind], aliases, rng)
     documented_alias_checks(ctx, aliases)
     special_cases(ctx)
@@ -1418,6 +1580,15 @@ def special_cases(ctx):
           "time_step": {"v": 0.5}, "t_max": "default", "policy": "on_t_sample", "interval": {"v": 1.0}, "seed": 1, "mode": "auto"}
     cases.append(("trajectory", dict(base_traj, script=sc, cgmap=[0, 1], cgmap_np=True), ["file-abs"]))
     cases.append(("trajectory", dict(base_traj, script=sc, cgmap=[0, 1]), ["file-abs", "file-rel", "file-inline"]))
+    # refused edits before the round trip (always run): the object must stay as built, and serialise as built
+    ts = _tiny_system(["mm", "min", "mol"])
+    cases.append(("system", dict(ts, refused=["system.space.environment-index", "system.state.item-dimension", "network.units.time"]),
+                  ["direct", "json", "file-abs", "reserialise"]))
+    cases.append(("system", dict(sysg, refused=["system.space.environment-index", "node.volume.dimension"]), ["direct", "file-abs"]))
+    cases.append(("script", {"us": ["µm", "s", "molecule"], "system": _tiny_system(["µm", "s", "molecule"]), "t_sample": {"values": [0.0, 1.0]},
+                             "time_step": {"v": 0.5}, "t_max": "default", "policy": "on_interval", "interval": {"v": 1.0}, "seed": 7, "mode": "redist",
+                             "refused": ["script.sampling_policy", "script.init_state_processing", "script.units.time", "system.space.environment-index"]},
+                  ["direct", "json", "file-abs", "reserialise"]))
     # models declared in coarse units with physically ordinary sizes: the numbers carried are 1e-12 … 1e-30, plus many-digit values
     for us in (["m", "s", "mol"], ["km", "h", "kmol"], ["m", "h", "mol"]):
         net = {"us": us, "envs": ["cyt", "mem"],
@@ -1621,6 +1792,13 @@ def replay(ctx, rec):
     kind, mode, spec = case["kind"], case["mode"], case["spec"]
     x = BUILD[kind](spec)
     ref = VIEW[kind](x)
+    if spec.get("refused"):
+        outcomes = apply_refused(kind, x, spec["refused"])
+        out["refused_edits"] = outcomes
+        if mode == "refused-edit":
+            df = diff(ref, VIEW[kind](x))
+            out["changed"] = None if not df else {"path": df[0], "built": df[1], "after": df[2]}
+            return (not df and not any(oc == "accepted" for _, oc in outcomes)), out
     with Tmp() as tmp:
         try:
             holds, detail = run_mode(kind, mode, x, ref, spec, tmp, reader_aliases(), None, dict(case))
